@@ -191,6 +191,7 @@ type lendSeizure struct {
 
 type lendLiqTracker struct {
 	livenessReported map[uint64]bool
+	blocked          map[uint64]string // borrow id -> listed cause that blocked its seizure at some block of the current unsafe period
 	prevBorrows map[uint64]lendtypes.BorrowAsset
 	prevBal     map[string]sdk.Int // "module/denom"
 	locked      map[uint64]uint64  // locked vault id -> borrow id
@@ -245,6 +246,25 @@ func (t *lendLiqTracker) prevBalOf(m, d string) sdk.Int {
 // observe is called after every BeginBlock (OnBlock) and, by the C09 borrow oracle, after every tx.
 func (t *lendLiqTracker) observe(w *World, byKeeper bool) {
 	ctx := w.Ctx()
+	if debugLiq && !byKeeper {
+		off, _ := w.App.NewliqKeeper.GetLiquidationOffsetHolder(ctx, "vault-liquidations", 1)
+		list, _ := w.App.LendKeeper.GetBorrows(ctx)
+		fmt.Printf("OBS h=%d offset=%d list=%v ages=%v\n", w.Height(), off.CurrentOffset, list, t.unsafeAge)
+		for id := range t.unsafeAge {
+			cctx, _ := w.WCtx().CacheContext()
+			var e2 error
+			func() {
+				defer func() {
+					if r := recover(); r != nil {
+						e2 = fmt.Errorf("panic %v", r)
+					}
+				}()
+				e2 = w.App.NewliqKeeper.LiquidateIndividualBorrow(cctx, id, "", false)
+			}()
+			b2, _ := w.App.LendKeeper.GetBorrow(cctx, id)
+			fmt.Printf("   dry %d: err=%v liquidated=%v\n", id, e2, b2.IsLiquidated)
+		}
+	}
 	present := map[uint64]bool{}
 	moved := map[string]sdk.Int{} // "module/denom" -> collateral that left the pool in this step
 	arrived := map[string]sdk.Int{}
@@ -366,13 +386,55 @@ func (t *lendLiqTracker) liveness(w *World) {
 		if v, _ := w.borrowVerdict(b); v == "unsafe" {
 			t.unsafeAge[b.ID]++
 			cur[b.ID] = true
+			// why would a seizure not go through right now? (dry run on a discarded branch; remembered for the whole time
+			// the borrow stays unsafe, because the sweep reaches it only in some of these blocks)
+			if why := t.seizureBlockedBy(w, b); why != "" {
+				if t.blocked == nil {
+					t.blocked = map[uint64]string{}
+				}
+				t.blocked[b.ID] = why
+			}
 		}
 	}
 	for id := range t.unsafeAge {
 		if !cur[id] {
 			delete(t.unsafeAge, id)
+			delete(t.blocked, id)
 		}
 	}
+}
+
+// seizureBlockedBy classifies, for the listed findings only, why LiquidateIndividualBorrow cannot seize the borrow in the
+// current state: "" when the dry run seizes it or fails for a reason that is not one of the listed ones.
+func (t *lendLiqTracker) seizureBlockedBy(w *World, b lendtypes.BorrowAsset) (why string) {
+	defer func() {
+		if r := recover(); r != nil {
+			why = ""
+		}
+	}()
+	cctx, _ := w.WCtx().CacheContext()
+	if _, ok := w.App.LendKeeper.GetLend(cctx, b.LendingID); !ok {
+		return ":lend_position_deleted_by_an_earlier_seizure"
+	}
+	err := w.App.NewliqKeeper.LiquidateIndividualBorrow(cctx, b.ID, "", false)
+	if err == nil {
+		return ""
+	}
+	if strings.Contains(err.Error(), "insufficient funds") || strings.Contains(err.Error(), "is smaller than") {
+		return ":pool_no_longer_holds_the_pledged_collateral"
+	}
+	// the module masks the underlying error; check the one cause that can be observed from outside
+	if lp, ok := w.App.LendKeeper.GetLend(cctx, b.LendingID); ok {
+		if pool, ok := w.App.LendKeeper.GetPool(cctx, lp.PoolID); ok {
+			pair, _ := w.App.LendKeeper.GetLendPair(cctx, b.PairID)
+			if as, ok := w.App.AssetKeeper.GetAsset(cctx, pair.AssetIn); ok {
+				if bal := w.App.BankKeeper.GetBalance(w.Ctx(), w.ModAddr(pool.ModuleName), as.Denom); bal.Amount.LT(b.AmountIn.Amount) {
+					return ":pool_no_longer_holds_the_pledged_collateral"
+				}
+			}
+		}
+	}
+	return ""
 }
 
 // ---------- C09 (borrow part) ----------
@@ -505,8 +567,29 @@ func (o *c09LendOracle) After(w *World, ev *Event, res Result) *Violation {
 					}
 				}
 			}()
+			if !cont && t.blocked[id] != "" {
+				// during the unsafe period the seizure was blocked by a listed cause (even if it would go through right now)
+				why, cont = t.blocked[id], true
+			}
 			if cont {
 				t.livenessReported[id] = true
+			}
+			if debugLiq {
+				if b, ok := w.App.LendKeeper.GetBorrow(ctx, id); ok {
+					v, d := w.borrowVerdict(b)
+					off, offFound := w.App.NewliqKeeper.GetLiquidationOffsetHolder(ctx, "vault-liquidations", 1)
+					fmt.Printf("LIVENESS borrow %d verdict=%s %s\n  record=%+v\n  offset=%d found=%v list=%v\n", id, v, d, b, off.CurrentOffset, offFound, list)
+					pair, _ := w.App.LendKeeper.GetLendPair(ctx, b.PairID)
+					ai, _ := w.App.AssetKeeper.GetAsset(ctx, pair.AssetIn)
+					ao, _ := w.App.AssetKeeper.GetAsset(ctx, pair.AssetOut)
+					rp, _ := w.App.LendKeeper.GetAssetRatesParams(ctx, pair.AssetIn)
+					cr, err := w.App.LendKeeper.CalculateCollateralizationRatio(ctx, b.AmountIn.Amount, ai, b.AmountOut.Amount.Add(b.InterestAccumulated.TruncateInt()), ao)
+					fmt.Printf("  module: pair=%+v cr=%s err=%v liqThr=%s eThr=%s\n", pair, cr, err, rp.LiquidationThreshold, rp.ELiquidationThreshold)
+					cctx, _ := w.WCtx().CacheContext()
+					e2 := w.App.NewliqKeeper.LiquidateIndividualBorrow(cctx, id, "", false)
+					b2, _ := w.App.LendKeeper.GetBorrow(cctx, id)
+					fmt.Printf("  dry run: err=%v isLiquidated=%v\n", e2, b2.IsLiquidated)
+				}
 			}
 			return &Violation{Property: "C09", OracleID: "c09l.liveness", Signature: "borrow_not_seized" + why, Continue: cont,
 				Detail: fmt.Sprintf("borrow %d has been clearly unsafe for %d consecutive blocks with liquidation and dutch auctions enabled, all prices active and no breaker (list length %d, batch %d, bound %d)%s", id, age, n, batch, bound, why)}
